@@ -991,12 +991,65 @@ def rule_offsets(ctx) -> None:
         chk.decide(val == size, "C06.offsets", f"{CNT}::{cn}.CONTAINER_SIZE", f"container slot size {size:#x}", f"{val}", "", A.loc(CNT, c.node))
 
 
+def rule_raw_peeks(ctx) -> None:
+    """C06.raw-peek: a parser that reads a field straight out of the input (`int.from_bytes(data[base + a : base + b], order)`) instead of
+    taking it from the parsed record agrees with the record's packed layout: [a, b) is exactly one packed item of the writer's format,
+    in the format's byte order.  AHABContainer.parse takes the image size of every image array entry this way to cut the image data."""
+    import struct as _st
+    fn = ctx.own(CNT, "AHABContainer", "parse")
+    n = 0
+    for iae_name in ("ImageArrayEntry", "ImageArrayEntryV2"):
+        k = ctx.cls(IAE, iae_name)
+        ex = ctx.prog.find_method(k, "export")
+        pk = [c for c in A.calls_in(ex.node, "pack")]
+        fmt = ctx.prog.fold(pk[0].args[0], ex.module, k) if pk else None
+        its = struct_items(fmt) if isinstance(fmt, str) else None
+        if not its or len([i for i in its if i[0] != "x"]) != len(pk[0].args) - 1:
+            raise AnalysisError(f"C06.raw-peek: the export format of {iae_name} does not fold")
+        offs = {}
+        pos = 0
+        vals = iter(pk[0].args[1:])
+        for code, sz in its:
+            if code != "x":
+                offs[norm(next(vals))] = (pos, pos + sz)
+            pos += sz
+        little = fmt[:1] in ("<",) or (fmt[:1] not in (">", "!") and _st.pack("=H", 1) == b"\x01\x00")
+        peeks = [c for c in ast.walk(fn.node) if isinstance(c, ast.Call) and norm(c.func) == "int.from_bytes" and c.args and isinstance(c.args[0], ast.Subscript) and isinstance(c.args[0].slice, ast.Slice)]
+        for c in peeks:
+            sl = c.args[0].slice
+            lo, hi = norm(A.inline_locals(fn.node, sl.lower)), norm(A.inline_locals(fn.node, sl.upper))
+            base = norm(A.inline_locals(fn.node, ast.parse("image_array_entry_binary_start", mode="eval").body))
+            def rel(t: str):
+                if t.startswith(base):
+                    r = t[len(base):].strip()
+                    if r == "":
+                        return 0
+                    if r.startswith("+"):
+                        v = ctx.prog.fold(ast.parse(r[1:].strip(), mode="eval").body, fn.module, fn.cls)
+                        return v if isinstance(v, int) else None
+                return None
+            a, b = rel(lo), rel(hi)
+            order = A.arg_of(c, 1, "byteorder")
+            ordv = ctx.prog.fold(order, fn.module, fn.cls) if order is not None else None
+            if not isinstance(ordv, str):
+                ordv = {"Endianness.LITTLE.value": "little", "Endianness.BIG.value": "big"}.get(norm(order)) if order is not None else None
+            field = [f_ for f_, w in offs.items() if w == (a, b)]
+            n += 1
+            tgt = [s_ for s_ in ast.walk(fn.node) if isinstance(s_, ast.Assign) and s_.value is c]
+            name = norm(tgt[0].targets[0]) if tgt else "?"
+            ok = bool(field) and ordv == ("little" if little else "big") and (name.split(".")[-1].lstrip("_") in field[0] or field[0].split(".")[-1].lstrip("_") in name)
+            ctx.chk.decide(ok, "C06.raw-peek", f"{fn.qual} `{name}` vs {iae_name}", f"bytes [{a}, {b}) in {ordv} order are the packed item `{field[0] if field else '?'}` of the entry's own format",
+                           f"`{norm(c)[:120]}` reads bytes [{a}, {b}) as {ordv}-endian into `{name}`; the entry packs {sorted(offs.items(), key=lambda kv: kv[1])[:3]} ({'little' if little else 'big'} endian)", "", A.loc(CNT, c))
+    ctx.chk.floor("C06.raw-peek", 2)
+
+
 def run(ctx) -> None:
     ctx.chk.explain("C06: E1 wire symmetry of every AHAB container class (including the pre-parse header peeks), E2 bit provenance of container/image flags and metadata "
                     "(producer shifts vs getter offsets, both entry versions), verifier-width rule tying every range record to the struct item or flag field it names, "
                     "producer/verifier twins (image hash over the size-extended image, signed range, SRK hash, decryption check), signing order, signature-block windows "
                     "(offset assignment evaluated on presence x length models), revoke-mask decision on all 64 cases, SRK key-size tables, image offset assignment on finite models.")
     ctx.rule(rule_wire)
+    ctx.rule(rule_raw_peeks)
     ctx.rule(rule_flags)
     ctx.rule(rule_verify_width)
     ctx.rule(rule_range_helper)
